@@ -144,8 +144,13 @@ def t_types( ctx ):
     ok_unpack = ok_beg = False
     for size, offset, index in (( 2, 0, 0 ), ( 4, 10, 3 ), ( 1, 5, 2 )):
         del seen_bufs[:]
-        env = { 'self.struct_calcsize': size, 'self.offset': offset, 'self.index': index, 'ours': 'o', 'self._input': '.i',
-                'data': { 'o.i': list( range( 64 )) }, 'self._struct.unpack_from': unpack_from }
+        # the local holding this state's context ( whatever it is called ) is 'o'; the collected input lives under 'o' + self._input
+        ctxs = [ a_.targets[0].id for a_ in term.body if isinstance( a_, ast.Assign ) and len( a_.targets ) == 1 and isinstance( a_.targets[0], ast.Name )
+                 and isinstance( a_.value, ast.Call ) and ( call_name( a_.value ) or '' ).endswith( '.context' ) ]
+        DATA_ = [ a.arg for a in term.args.args if a.arg == 'data' ] or [ term.args.args[-1].arg ]
+        env = { 'self.struct_calcsize': size, 'self.offset': offset, 'self.index': index, 'self._input': '.i',
+                DATA_[0]: { 'o.i': list( range( 64 )) }, 'self._struct.unpack_from': unpack_from }
+        env.update(( c_, 'o' ) for c_ in ctxs )
         for st in tail:
             try:
                 if run_block( [ st ], env ).kind != 'fall':
@@ -2796,10 +2801,17 @@ def t_tnetnum( ctx ):
     mod.update( { 're.match': re.match, 're.fullmatch': re.fullmatch, 're.search': re.search } )
     branches = {}
     for i in ast.walk( fn ):
-        if isinstance( i, ast.If ) and isinstance( i.test, ast.Compare ) and len( i.test.comparators ) == 1:
-            c = try_fold( i.test.comparators[0], default=None )
-            if c in ( b'#', b'^' ) and isinstance( i.test.left, ast.Name ):
-                branches[c] = i.body
+        if isinstance( i, ast.If ) and isinstance( i.test, ast.Compare ) and len( i.test.comparators ) == 1 and isinstance( i.test.ops[0], ast.Eq ):
+            for side, other in (( i.test.comparators[0], i.test.left ), ( i.test.left, i.test.comparators[0] )):
+                c = try_fold( side, default=None )
+                if c in ( b'#', b'^' ) and isinstance( other, ast.Name ):
+                    branches[c] = i.body
+    # the payload is the first name of the triple parse_payload hands back; the result is whatever name the branches store into
+    trip = [ a.targets[0] for a in ast.walk( fn ) if isinstance( a, ast.Assign ) and isinstance( a.targets[0], ast.Tuple ) and len( a.targets[0].elts ) == 3 and isinstance( a.value, ast.Call )
+             and ( call_name( a.value ) or '' ).endswith( 'parse_payload' ) ]
+    if not trip or not isinstance( trip[0].elts[0], ast.Name ):
+        raise AnalysisError( 'tnetstrings.parse: payload, type, remainder = parse_payload( ... ) not found' )
+    PAYLOAD = trip[0].elts[0].id
     if set( branches ) != { b'#', b'^' }:
         raise AnalysisError( 'tnetstrings.parse: the branches for the number payloads ( # and ^ ) not found' )
     P = [ a.arg for a in fn.args.args ]
@@ -2808,7 +2820,8 @@ def t_tnetnum( ctx ):
     for tag, body in branches.items():
         for v in samples[tag]:
             payload = repr( v ).encode( 'ascii' )
-            env = dict( mod ); env.update( { 'payload': payload, 'int': int, 'float': float, 'len': len } )
+            env = dict( mod ); env.update( { PAYLOAD: payload, 'int': int, 'float': float, 'len': len } )
+            before_ = set( env )
             res.cells += 1
             try:
                 out = run_block( body, env, ignore_calls=( 'log', ))
@@ -2816,7 +2829,8 @@ def t_tnetnum( ctx ):
                 wrong.append(( payload, 'raises %s' % exc )); continue
             except NoFold as exc:
                 raise AnalysisError( 'tnetstrings.parse: number branch outside the modelled subset: %s' % exc )
-            got = env.get( 'value' )
+            stored = [ k_ for k_ in env if k_ not in before_ ]
+            got = env[stored[-1]] if stored else None
             same = out.kind == 'fall' and ( got == v or ( got != got and v != v )) and type( got ) is type( v )
             if not same:
                 wrong.append(( payload, '%s, value %r' % ( out, got )))
